@@ -525,6 +525,63 @@ def run_pspace(ctx):
                 ctx.violation('legacy:' + red, 'pspace-' + pn, 'raises:' + type(e).__name__, message=str(e)[:200])
 
 
+def run_pspace_reductions(ctx):
+    """Full reductions of product-space elements: NumPy functions / ufunc.reduce(axis=None) and the legacy x.ufuncs
+    interface against the same reduction of the stacked arrays - exact for integers (values beyond 2**53), NaN
+    propagated wherever it sits, result type as NumPy's."""
+    rng = ctx.rng('pspace-reductions')
+    big = 2 ** 60
+    cases = []
+    pi = odl.tensor_space(3, dtype='int64') ** 2
+    cases.append(('int64-power', pi, pi.element([[big, 3, -7], [big // 3, 11, 5]]), True))
+    pb = odl.tensor_space(3, dtype=bool) ** 2
+    cases.append(('bool-power', pb, pb.element([[True, False, True], [True, True, False]]), True))
+    pf = odl.rn(3) ** 2
+    for where in ((0, 1), (1, 2)):
+        a = rng.normal(size=(2, 3))
+        a[where] = np.nan
+        cases.append(('float-power;nan-in-part-%d' % where[0], pf, pf.element(a), True))
+    pd = odl.uniform_discr(0, 1, 4) ** 3
+    a = rng.normal(size=(3, 4))
+    a[2, 1] = np.nan
+    cases.append(('discr-power;nan-in-last-part', pd, pd.element(a), True))
+    pn = (odl.rn(2) ** 2) ** 2
+    a = rng.normal(size=(2, 2, 2))
+    a[1, 0, 1] = np.nan
+    cases.append(('nested;nan-in-last-part', pn, pn.element(a), False))
+    pp = odl.ProductSpace(odl.rn(3), odl.rn(2))
+    cases.append(('product;nan-in-last-part', pp, pp.element([[1.0, 2.0, 3.0], [np.nan, 0.5]]), False))
+
+    def stacked(e):
+        if hasattr(e, 'parts'):
+            return np.concatenate([stacked(q) for q in e.parts])
+        return np.asarray(e).ravel()
+    for cname, sp, x, has_array in cases:
+        ref_arr = stacked(x)
+        for red, uf in (('sum', np.add), ('prod', np.multiply), ('min', np.minimum), ('max', np.maximum)):
+            if ref_arr.dtype == bool and red in ('sum', 'prod'):
+                continue
+            with np.errstate(all='ignore'):
+                ref = uf.reduce(ref_arr)
+            forms = [('legacy:' + red, lambda: getattr(x.ufuncs, red)())]
+            if has_array:
+                forms += [('np.' + red, lambda: getattr(np, red)(x)), ('reduce(axis=None)', lambda: uf.reduce(x, axis=None))]
+            for tag, fn in forms:
+                ctx.ev('differential')
+                ctx.case('pspace-reduction;%s;%s' % (cname, tag), red)
+                cfg = 'pspace-reduction;%s' % cname
+                try:
+                    with np.errstate(all='ignore'):
+                        got = fn()
+                    same_val = (np.isnan(got) and np.isnan(ref)) if (np.asarray(ref).dtype.kind == 'f' and np.isnan(ref)) else bool(got == ref)
+                    if not same_val:
+                        ctx.violation(tag.split(':')[0], cfg, 'value', reduction=red, got=str(got), ref=str(ref))
+                    elif np.asarray(ref).dtype.kind in 'iub' and np.asarray(got).dtype.kind != np.asarray(ref).dtype.kind:
+                        ctx.violation(tag.split(':')[0], cfg, 'dtype', reduction=red, got=str(np.asarray(got).dtype), ref=str(np.asarray(ref).dtype))
+                except Exception as e:
+                    ctx.violation(tag.split(':')[0], cfg, 'raises:' + type(e).__name__, reduction=red, message=str(e)[:200])
+
+
 def run_memory(ctx):
     rng = ctx.rng('mem')
     for sname, sp in spaces():
@@ -565,6 +622,7 @@ def run(ctx):
     if ctx.shard == 0:
         run_reductions_legacy(ctx)
         run_pspace(ctx)
+        run_pspace_reductions(ctx)
         run_memory(ctx)
     ctx.ev('memory', 0 if ctx.shard else 0)
     if ctx.shard != 0:
